@@ -55,7 +55,9 @@ def kani_cmd(ob, target_dir, playback=False):
     # multiplies time and memory (measured 47 s / 1.4 GB vs 344 s / 19 GB on one query). The
     # runner instead re-runs the *same* cbmc command that Kani logged (--verbose) with --trace on
     # the failed property and reads the nondet draws out of the JSON trace (extract_trace_values).
-    cmd = ["cargo", "kani", "-Z", "stubbing", "-Z", "unstable-options", "--verbose"]
+    # (--verbose would log the cbmc command line but makes kani-compiler 0.68 ICE in print_stats
+    # on some harnesses, so the command is reconstructed in trace_failed_property)
+    cmd = ["cargo", "kani", "-Z", "stubbing", "-Z", "unstable-options"]
     cmd += ["--harness", ob["harness"], "--exact", "--target-dir", target_dir]
     if ob.get("solver"):
         cmd += ["--solver", ob["solver"]]
@@ -155,18 +157,20 @@ def extract_trace_values(trace):
 
 def trace_failed_property(r, logdir):
     """Re-run the logged cbmc command with --trace on the first failed property."""
-    text = open(r.log, errors="replace").read()
-    m = re.findall(r"\[Kani\] Running: `(cbmc .*?)`", text)
-    if not m or not r.failed:
+    gb = find_goto_binary(r.slot, r.ob["harness"])
+    if not gb or not r.failed:
         return None
-    base = m[-1].split()
+    # Kani 0.68's cbmc invocation (taken from `cargo kani --verbose`), plus this obligation's bounds
+    base = ["cbmc", "--no-malloc-may-fail", "--no-undefined-shift-check", "--no-signed-overflow-check",
+            "--nan-check", "--no-self-loops-to-assumptions", "--no-pointer-primitive-check",
+            "--object-bits", "16", "--sat-solver", "cadical", "--slice-formula",
+            "--unwind", str(r.ob.get("unwind", 8))]
+    if r.ob.get("unwindset"):
+        base += ["--unwindset", ",".join("%s:%d" % kv for kv in r.ob["unwindset"].items())]
+    base += [gb]
     out = []
     for c in r.failed[:3]:
-        cmd = [x for x in base if x not in ("--json-ui",)]
-        # drop "--verbosity 9"
-        if "--verbosity" in cmd:
-            i = cmd.index("--verbosity")
-            del cmd[i:i + 2]
+        cmd = list(base)
         cmd += ["--property", c["name"], "--trace", "--json-ui", "--verbosity", "4"]
         name = os.path.basename(r.log)[:-4] + "__trace_" + re.sub(r"\W+", "_", c["name"])[-60:] + ".json"
         path = os.path.join(logdir, name)
@@ -277,14 +281,57 @@ def group_rss_kb(pgid):
     return tot
 
 
+def find_goto_binary(slot, harness):
+    import glob
+    fn = harness.split("::")[-1]
+    pat = os.path.join(slot, "kani", "*", "debug", "build", "vh", "*", "out", "vh-*%d%s.out" % (len(fn), fn))
+    cands = [f for f in glob.glob(pat) if not f.endswith(".symtab.out")]
+    return max(cands, key=os.path.getmtime) if cands else None
+
+
+def resolve_loops(ob, slot_dir, logdir, env):
+    """Per-loop unwind bounds by *function name pattern* (DESIGN §5): loop ids are mangled names
+    that change with the source, so they are looked up in the goto binary of this very build:
+    a first pass builds the binary (cbmc runs with --unwind 1 and is discarded), `cbmc
+    --show-loops` lists id + function of every loop, and the plan's patterns select the bounds."""
+    name = ob["harness"].replace("::", "__") + ob.get("tag", "")
+    ob1 = dict(ob)
+    ob1["unwind"] = 1
+    ob1["unwindset"] = {}
+    cmd = kani_cmd(ob1, slot_dir)
+    with open(os.path.join(logdir, name + "__loops.log"), "w") as f:
+        try:
+            subprocess.run(["timeout", "-k", "5", "600"] + cmd, cwd=CRATE, env=env, stdout=f,
+                           stderr=subprocess.STDOUT, start_new_session=True)
+        except Exception:
+            pass
+    gb = find_goto_binary(slot_dir, ob["harness"])
+    if not gb:
+        return None
+    out = subprocess.run(["cbmc", "--show-loops", gb], stdout=subprocess.PIPE, stderr=subprocess.DEVNULL,
+                         text=True).stdout
+    res = dict(ob.get("unwindset", {}))
+    for m in re.finditer(r"^Loop (\S+):\n\s+file .*? function (.*)$", out, re.M):
+        lid, fn = m.group(1), m.group(2)
+        for pat, bound in ob["loops"].items():
+            if pat in fn or pat in lid:
+                res[lid] = max(bound, res.get(lid, 0))
+    return res
+
+
 def run_obligation(ob, slot_dir, logdir, playback=False):
     r = Result(ob)
+    r.slot = slot_dir
     name = ob["harness"].replace("::", "__") + ob.get("tag", "") + ("__playback" if playback else "")
     r.log = os.path.join(logdir, name + ".log")
-    cmd = kani_cmd(ob, slot_dir, playback)
     env = base_env()
     for k, v in ob.get("env", {}).items():
         env[k] = str(v)
+    if ob.get("loops"):
+        us = resolve_loops(ob, slot_dir, logdir, env)
+        if us is not None:
+            ob["unwindset"] = us
+    cmd = kani_cmd(ob, slot_dir, playback)
     shell = "exec timeout -k 10 %d %s" % (ob["cap_s"], " ".join("'%s'" % c for c in cmd))
     t0 = time.time()
     peak = 0
